@@ -81,6 +81,11 @@ DtShiftMonthsOff(a, n, k, sign, r) ==
       viaLocal == IF rl.k # "ok" THEN {Panic} ELSE DtFromLocal(a, rl.dn, l.sod, l.ns)
   IN viaStored \cup viaLocal
 
+\* a setter whose result is not a representable instant refuses (C09, C15: "refused with OutOfRange", "never panic")
+DtSetLocal(a, dn2, sod2, ns2) ==
+  LET u == UtcOf([dn |-> dn2, sod |-> sod2, ns |-> ns2], a.off)
+  IN IF u.ok THEN {OkDt(Inst(u.dn, u.sod, u.ns), a.off)} ELSE {ErrOOR}
+
 NoDay == [ok |-> FALSE]
 DayIs(dn) == [ok |-> TRUE, dn |-> dn]
 DateFieldSet(dn, f, v) ==      \* new local day number, or NoDay when refused; v is a native integer
@@ -99,10 +104,10 @@ DtSet(a, f, v, vBig) ==
   IF f \in DateFields THEN
      (IF vBig THEN {ErrOOR} ELSE
       LET r == DateFieldSet(l.dn, f, v) IN
-      IF ~r.ok THEN {ErrOOR} ELSE DtFromLocal(a, r.dn, l.sod, l.ns))
+      IF ~r.ok THEN {ErrOOR} ELSE DtSetLocal(a, r.dn, l.sod, l.ns))
   ELSE
      (IF vBig \/ v < 0 \/ v > ClockMax(f) THEN {ErrOOR} ELSE
-      LET c == SetClock(l.sod, l.ns, f, v) IN DtFromLocal(a, l.dn, c[1], c[2]))
+      LET c == SetClock(l.sod, l.ns, f, v) IN DtSetLocal(a, l.dn, c[1], c[2]))
 
 DtClear(a, f) ==
   LET l == DtLocal(a) IN
